@@ -307,6 +307,29 @@ func runC04(p *Prog, r *Report) {
 			}
 		}
 	}
+	// the table is one object for the limiter's lifetime and every release gives back exactly what it took: the
+	// map field is assigned only at construction, and in the release routine every path to a return passes the
+	// update connections[token] = connections[token] - amount (a shortcut that replaces the table, or skips the
+	// decrement, wipes or keeps counts of requests still in flight)
+	for _, st := range p.StoresToField(c.typ, c.mapField) {
+		r.Sites++
+		r.Check(enclosingRoot(st.Parent()).Name() == "New" || strings.HasPrefix(enclosingRoot(st.Parent()).Name(), "New"), "C04.R2", "connlimit.ConnLimiter."+c.mapField+": assigned only at construction, in "+FName(st.Parent()), p.InstrPos(st),
+			"the per-source table is created once", "the per-source table is replaced after construction: the counts of all requests in flight are forgotten and their sources can exceed the limit")
+	}
+	if c.release != nil {
+		isDec := func(in ssa.Instruction) bool {
+			mu, ok := in.(*ssa.MapUpdate)
+			if !ok || !mapFieldOf(mu.Map, c.typ, c.mapField) {
+				return false
+			}
+			e := BuildExpr(p, mu.Value, nil).String()
+			return strings.HasPrefix(e, "-(") && strings.Contains(e, "p2")
+		}
+		ret := ReturnReachableAvoiding(c.release, nil, isDec, nil)
+		r.Paths++
+		r.Check(ret == nil, "C04.R2", "connlimit.(*ConnLimiter).release: the source's count is lowered on every path", p.FuncPos(c.release), "every return has passed connections[token] -= amount",
+			"the release routine can return without lowering the source's count"+posOf(p, ret)+": the slot is never given back (or the whole table was replaced instead)")
+	}
 	// an entry is dropped only when its count has reached zero: delete(connections, k) is reachable only on an
 	// edge implying count == 0 / count <= 0, count being connections[k] (after the decrement) or
 	// connections[k] - amount (before it); dropping an entry that still counts requests in flight resets the
@@ -689,6 +712,7 @@ func zeroCountCmp(c LinCmp, post bool) bool {
 func mutantsC04() []Mutant {
 	f := "connlimit/connlimit.go"
 	return []Mutant{
+		{Name: "release-replaces-table", File: "connlimit/connlimit.go", Old: "\tcl.connections[token] -= amount\n", New: "\tif len(cl.connections) == 1 {\n\t\tcl.connections = make(map[string]int64)\n\t\tcl.totalConnections -= amount\n\t\treturn\n\t}\n\tcl.connections[token] -= amount\n", Expect: "C04.R2"},
 		{Name: "options-requests-bypass-the-limiter", File: "connlimit/connlimit.go", Old: "\ttoken, amount, err := cl.extract.Extract(r)\n", New: "\tif r.Method == http.MethodOptions {\n\t\tcl.next.ServeHTTP(w, r)\n\t\treturn\n\t}\n\ttoken, amount, err := cl.extract.Extract(r)\n", Expect: "C04.R2"},
 		{Name: "undefer-release", File: f, Old: "\tdefer cl.release(token, amount)\n\n\tcl.next.ServeHTTP(w, r)\n", New: "\tcl.next.ServeHTTP(w, r)\n\tcl.release(token, amount)\n", Expect: "C04.R3"},
 		{Name: "ge-to-gt", File: f, Old: "if connections >= cl.maxConnections {", New: "if connections > cl.maxConnections {", Expect: "C04.R4"},
